@@ -30,6 +30,8 @@ pub mod c07;
 pub mod c08;
 #[cfg(feature = "c09")]
 pub mod c09;
+#[cfg(feature = "c09b")]
+pub mod c09b;
 #[cfg(feature = "c10")]
 pub mod c10;
 #[cfg(feature = "c11")]
@@ -339,6 +341,10 @@ pub fn run_request(req: &str) -> String {
     #[cfg(feature = "c09")]
     {
         ans = ans.or_else(|| c09::run_request(cmd, &args));
+    }
+    #[cfg(feature = "c09b")]
+    {
+        ans = ans.or_else(|| c09b::run_request(cmd, &args));
     }
     #[cfg(feature = "c10")]
     {
